@@ -24,7 +24,7 @@ import CpModel.DispatchIO
 
   Path rewriting in front of the dispatcher:
 
-    S <apps: - | text,text,…> <SCRIPT_NAME> <PATH_INFO>   ->  `N` | `<script name> <path info>`     (Tree.__call__)
+    S <apps: =text,text,…> <SCRIPT_NAME> <PATH_INFO>   ->  `N` | `<script name> <path info>`     (Tree.__call__)
     T <apps> <path>                                        ->  `N` | `<script name>`                 (Tree.script_name)
     V <domains: - | text~text,…> <domain> <path_info>      ->  `<path>`                              (VirtualHost)
     X <path_info>                                          ->  `<path>`                              (XMLRPCDispatcher)
@@ -84,7 +84,12 @@ def stepF (kind meth root na nodes secs path table : String) : String :=
     else "bad-op"
   | _, _, _, _ => "bad-op"
 
-def parseTexts (s : String) : Option (List (List Char)) := parseList "," Proto.untext? s
+/-- `=` followed by the comma-separated texts (`=` alone: the empty list; `=-`: the list holding `''`) -/
+def parseTexts (s : String) : Option (List (List Char)) :=
+  if !s.startsWith "=" then none
+  else
+    let r := (s.drop 1).toString
+    if r.isEmpty then some [] else (r.splitOn ",").mapM Proto.untext?
 
 def parseDomain (s : String) : Option (List Char × List Char) :=
   match s.splitOn "~" with
